@@ -12,7 +12,7 @@ RULE = ("decreasing / two-thirds / three-quarters on small instances with exact 
         "(OPT up to 60, up to ~300 items) and the docstring worst-case families k = 1..6; count must satisfy >= (OPT-1)/2, >= 2/3 (OPT-1), >= 3/4 OPT - 4 respectively and <= OPT; "
         "non-trivial = OPT >= 3 and count < OPT; distinct on (algorithm, binsize, sorted values)")
 ASSUMPTIONS = ["the 3/4 OPT - 4 bound only bites for OPT >= 6, i.e. on planted / worst-case instances"]
-FLOORS = {"quick": {"distinct_nontrivial": 1500}, "thorough": {"distinct_nontrivial": 15000}}
+FLOORS = {"quick": {"distinct_nontrivial": 1500}, "thorough": {"distinct_nontrivial": 7500}}
 
 
 def plan(tier, seed):
